@@ -33,6 +33,91 @@ def _root(t):
     return t
 
 
+def _disjuncts(t, pol):
+    """the disjuncts (term, polarity) of a condition taken with polarity pol"""
+    if t[0] == "un" and t[1] == "not":
+        return _disjuncts(t[2], not pol)
+    if t[0] == "bool" and ((t[1] == "or" and pol) or (t[1] == "and" and not pol)):
+        return [d for x in t[2] for d in _disjuncts(x, pol)]
+    if t[0] == "bin" and ((t[1] == "|" and pol) or (t[1] == "&" and not pol)):
+        return [d for x in t[2:4] for d in _disjuncts(x, pol)]
+    return [(t, pol)]
+
+
+def _reduction(t, names):
+    """np.any(v) / v.any() -> ('any', v)   (names: the reductions looked for)"""
+    if t[0] == "call" and t[1][0] == "global" and t[1][1] in {"numpy." + n for n in names} and t[2]:
+        return t[1][1].split(".")[1], t[2][0]
+    if t[0] == "call" and t[1][0] == "attr" and t[1][2] in names and not t[2]:
+        return t[1][2], t[1][1]
+    return None
+
+
+_FLIP = {"<": ">=", ">=": "<", ">": "<=", "<=": ">"}
+_SWAP = {"<": ">", ">": "<", "<=": ">=", ">=": "<="}
+
+
+def _step_compare(t):
+    """an elementwise comparison of consecutive versions of one column: ('<', column) means  x[i+1] < x[i]  (a decrease)
+    np.diff(x) < 0,  0 > np.diff(x),  x[1:] < x[:-1],  x[:-1] > x[1:]"""
+    if t[0] != "cmp" or t[1] not in _FLIP:
+        return None
+    op, a, b = t[1], t[2], t[3]
+    if a == ("const", 0):
+        op, a, b = _SWAP[op], b, a
+    if b == ("const", 0) and a[0] == "call" and a[1] == ("global", "numpy.diff") and len(a[2]) == 1 and not a[3]:
+        col = _colarr(a[2][0])
+        return (op, col) if col else None
+
+    def sl(x):  # x[1:] -> (column, 'tail'); x[:-1] -> (column, 'head')
+        if x[0] == "sub" and x[2][0] == "slice":
+            lo, hi, st = x[2][1:4]
+            col = _colarr(x[1])
+            none = (None, ("const", None))
+            if col and st in none:
+                if lo == ("const", 1) and hi in none:
+                    return col, "tail"
+                if lo in none and hi == ("const", -1):
+                    return col, "head"
+        return None
+
+    sa, sb = sl(a), sl(b)
+    if sa and sb and sa[0] == sb[0] and {sa[1], sb[1]} == {"tail", "head"}:
+        return (op if sa[1] == "tail" else _SWAP[op]), sa[0]
+    return None
+
+
+def _decrease_tests(t, pol):
+    """columns c for which (t taken with polarity pol) holds whenever c decreases between two versions:
+    any(step < 0) / not all(step >= 0) / min(step) < 0"""
+    out = set()
+    r = _reduction(t, ("any", "all"))
+    if r:
+        if r[0] == "any" and pol and r[1][0] == "bin" and r[1][1] == "|":  # any(a | b) = any(a) or any(b)
+            for x in r[1][2:4]:
+                out |= _decrease_tests(("call", ("global", "numpy.any"), (x,), ()), True)
+            return out
+        sc = _step_compare(r[1])
+        if sc:
+            if r[0] == "any" and pol and sc[0] == "<":
+                out.add(sc[1])
+            if r[0] == "all" and not pol and sc[0] == ">=":
+                out.add(sc[1])
+        return out
+    if t[0] == "cmp" and t[1] in _FLIP:
+        op, a, b = t[1], t[2], t[3]
+        if a == ("const", 0):
+            op, a, b = _SWAP[op], b, a
+        if not pol:
+            op = _FLIP[op]
+        r = _reduction(a, ("min",)) if b == ("const", 0) else None
+        if r and op == "<" and r[1][0] == "call" and r[1][1] == ("global", "numpy.diff") and len(r[1][2]) == 1:
+            col = _colarr(r[1][2][0])
+            if col:
+                out.add(col)
+    return out
+
+
 def _colarr(t):
     """df'[name].to_numpy() / df'[name].values -> name (df' = df with column assignments)"""
     if t[0] == "call" and t[1][0] == "attr" and t[1][2] == "to_numpy" and not t[2]:
@@ -113,6 +198,22 @@ def check(ctx):
                        f"votes: a history revised down to nothing at the end passes as monotone")
         elif "numpy.abs(" in txt and ".max() > 1" in txt and "results_dem" in txt and "results_gop" in txt and "results_weights" in txt:
             kinds["batch"] = (c[1], t, n, txt)
+    # F37: a batch that takes votes away from a party is impossible too, and the quotient test cannot see it: with both differences
+    # negative (or one negative, one zero) the batch margin lands inside [-1, 1] again. The batch return has to be taken as well whenever
+    # the dem or the gop count goes down between two versions.
+    if "batch" in kinds:
+        seen_ = set()
+        for pc, t, n in early:
+            if t != kinds["batch"][1]:
+                continue
+            c_ = pc[-1]
+            for d_ in _disjuncts(c_[0], c_[1]):
+                seen_ |= _decrease_tests(*d_)
+        okneg = {"results_dem", "results_gop"} <= seen_
+        ctx.ob("C17.R1.party-decrease", f"{g.qualname}|a batch that takes votes away from a party is an impossible batch", okneg, g.where(kinds["batch"][2]),
+               "the batch return is also taken when the dem or the gop count decreases between two versions" if okneg else
+               f"only the quotient |batch margin| > 1 is tested (decrease seen for: {sorted(seen_) or 'none'}): a version that revises both parties "
+               f"downwards (or one, the other unchanged) has a batch margin inside [-1, 1] with the sign flipped and passes as regular")
     for k, what in (("monotone", "re-scaled turnout not non-decreasing"), ("batch", "a batch margin outside [-1, 1]")):
         ok = k in kinds and kinds[k][0]
         ctx.ob("C17.R1.test", f"{g.qualname}|early return for {what}", ok, g.where(kinds[k][2]) if k in kinds else g.where(),
